@@ -27,36 +27,36 @@ theorem relCs_blank (k : Nat) : RelCs k {} { cid := k, hdr := { cid := k } } :=
   ⟨rfl, rfl, rfl, rfl, by intro h; simp at h, by intro h; simp at h, by decide⟩
 
 /-- The state after a chunk that completes / does not complete its message. -/
-def csDone (c : CsState) (e : ChunkEv) : CsState :=
-  { ts := newTs c e, delta := e.tsField, len := e.len, ty := e.ty, sid := e.sid }
-def csOpen (c : CsState) (e : ChunkEv) : CsState :=
-  { ts := newTs c e, delta := e.tsField, len := e.len, ty := e.ty, sid := e.sid,
-    got := (csAfter c e).got ++ e.data, busy := true }
+def csDone (a : Bool) (c : CsState) (e : ChunkEv) : CsState :=
+  { ts := newTs a c e, delta := e.tsField, len := e.len, ty := e.ty, sid := e.sid }
+def csOpen (a : Bool) (c : CsState) (e : ChunkEv) : CsState :=
+  { ts := newTs a c e, delta := e.tsField, len := e.len, ty := e.ty, sid := e.sid,
+    got := (csAfter a c e).got ++ e.data, busy := true }
 
 /-- Inversion of `step`. -/
-theorem step_inv {s s' : Sender} {e : ChunkEv} {out : Option Message} (h : step s e = some (s', out)) :
+theorem step_inv {a : Bool} {s s' : Sender} {e : ChunkEv} {out : Option Message} (h : step a s e = some (s', out)) :
     ∃ c, EvOK e ∧ lookup s e = some c ∧ HeaderOK c e ∧
-      e.data.length = min (e.len - (csAfter c e).got.length) s.chunkSize ∧
-      ((((csAfter c e).got ++ e.data).length = e.len ∧ ControlOK e.ty ((csAfter c e).got ++ e.data) ∧
-          s' = s.setCs e.cid (csDone c e) (if e.ty = 1 then ofBE ((csAfter c e).got ++ e.data) else s.chunkSize) ∧
-          out = some { cid := e.cid, ty := e.ty, sid := e.sid, ts := newTs c e % 2147483648,
-                       payload := (csAfter c e).got ++ e.data }) ∨
-       (((csAfter c e).got ++ e.data).length ≠ e.len ∧ s' = s.setCs e.cid (csOpen c e) s.chunkSize ∧ out = none)) := by
+      e.data.length = min (e.len - (csAfter a c e).got.length) s.chunkSize ∧
+      ((((csAfter a c e).got ++ e.data).length = e.len ∧ ControlOK e.ty ((csAfter a c e).got ++ e.data) ∧
+          s' = s.setCs e.cid (csDone a c e) (if e.ty = 1 then ofBE ((csAfter a c e).got ++ e.data) else s.chunkSize) ∧
+          out = some { cid := e.cid, ty := e.ty, sid := e.sid, ts := newTs a c e % 2147483648,
+                       payload := (csAfter a c e).got ++ e.data }) ∨
+       (((csAfter a c e).got ++ e.data).length ≠ e.len ∧ s' = s.setCs e.cid (csOpen a c e) s.chunkSize ∧ out = none)) := by
   have hev : EvOK e := Decidable.byContradiction (fun hn => by simp [step, hn] at h)
   cases hl : lookup s e with
   | none => simp [step, hev, hl] at h
   | some c =>
     refine ⟨c, hev, rfl, ?_⟩
     have hh : HeaderOK c e := Decidable.byContradiction (fun hn => by simp [step, hev, hl, hn] at h)
-    have hg : (if c.busy then c.got else []) = (csAfter c e).got := rfl
-    have hd : e.data.length = min (e.len - (csAfter c e).got.length) s.chunkSize :=
+    have hg : (if c.busy then c.got else []) = (csAfter a c e).got := rfl
+    have hd : e.data.length = min (e.len - (csAfter a c e).got.length) s.chunkSize :=
       Decidable.byContradiction (fun hn => by
         simp only [step, hev, hl, hh, hg, hn, not_true_eq_false, if_false, ne_eq, not_false_eq_true, if_true] at h
         simp at h)
     refine ⟨hh, hd, ?_⟩
     simp only [step, hev, hl, hh, hg, hd, not_true_eq_false, if_false, ne_eq] at h
-    by_cases hc : ((csAfter c e).got ++ e.data).length = e.len
-    · by_cases hctl : ControlOK e.ty ((csAfter c e).got ++ e.data)
+    by_cases hc : ((csAfter a c e).got ++ e.data).length = e.len
+    · by_cases hctl : ControlOK e.ty ((csAfter a c e).got ++ e.data)
       · simp only [hc, hctl, if_true, not_true_eq_false, if_false, Option.some.injEq, Prod.mk.injEq] at h
         exact Or.inl ⟨hc, hctl, h.1.symm, h.2.symm⟩
       · simp only [hc, hctl, if_true, not_false_eq_true] at h
@@ -108,17 +108,17 @@ theorem lookup_rel {s : Sender} {st : Reader} (hrel : Rel s st) {e : ChunkEv} {c
 /-- **One chunk event**: the reader, in a state related to the sender's, reads the chunk the
 specification writes, ends in a state related to the sender's next state and hands back exactly the
 message the chunk completes (if any) — provided the event does not use an extended DELTA (K2). -/
-theorem readChunk_spec (s s' : Sender) (st : Reader) (e : ChunkEv) (out : Option Message) (rest : Bytes)
-    (hrel : Rel s st) (hstep : step s e = some (s', out)) (hno : ¬ UsesExtDelta s e) :
+theorem readChunk_spec (a : Bool) (s s' : Sender) (st : Reader) (e : ChunkEv) (out : Option Message) (rest : Bytes)
+    (hrel : Rel s st) (hstep : step a s e = some (s', out)) (hno : a = true ∨ ¬ UsesExtDelta s e) :
     ∃ st' om, readChunk st (chunkBytes e ++ rest) = ok ((st', om), rest) ∧ Rel s' st' ∧ om.map toSpec = out := by
   obtain ⟨c, hev, hl, hh, hd, hcase⟩ := step_inv hstep
   obtain ⟨hrc, hcount, hbusy⟩ := lookup_rel hrel hl
   obtain ⟨ch, hch⟩ : ∃ ch, st.chunks.getOrNew e.cid = ch := ⟨_, rfl⟩
   rw [hch] at hrc hcount
-  have hno' : ¬ (16777215 ≤ e.tsField ∧ (e.fmt = 1 ∨ e.fmt = 2 ∨ (e.fmt = 3 ∧ c.busy = false))) := by
+  have hno' : a = true ∨ ¬ (16777215 ≤ e.tsField ∧ (e.fmt = 1 ∨ e.fmt = 2 ∨ (e.fmt = 3 ∧ c.busy = false))) := by
     rw [← hbusy]; exact hno
   -- collected bytes fit the announced length
-  have hpre : (csAfter c e).got.length ≤ e.len := by
+  have hpre : (csAfter a c e).got.length ≤ e.len := by
     unfold HeaderOK at hh
     cases hb : c.busy with
     | true =>
@@ -131,37 +131,37 @@ theorem readChunk_spec (s s' : Sender) (st : Reader) (e : ChunkEv) (out : Option
       basicHeader e.fmt e.cid e.bhForm ++ (messageHeader e ++ (extendedTimestamp e ++ (e.data ++ rest))) := by
     simp [chunkBytes, List.append_assoc]
   have hrd := readMessagePayload_data st.inChunk
-    { ch with hdr := hdrOfCs e.cid (csAfter c e),
-              msg := some { hdr := hdrOfCs e.cid (csAfter c e), payload := (csAfter c e).got },
+    { ch with hdr := hdrOfCs e.cid (csAfter a c e),
+              msg := some { hdr := hdrOfCs e.cid (csAfter a c e), payload := (csAfter a c e).got },
               count := ch.count + 1, extTs := decide (16777215 ≤ e.tsField) }
-    (hdrOfCs e.cid (csAfter c e)) (csAfter c e).got e.data rest rfl hpre (by rw [hrel.chunk]; exact hd)
+    (hdrOfCs e.cid (csAfter a c e)) (csAfter a c e).got e.data rest rfl hpre (by rw [hrel.chunk]; exact hd)
   rw [hbytes]
   simp only [readChunk, readBasicHeader_spec e.fmt e.cid e.bhForm hev.2.1 hev.1, Res.bind_ok]
-  rw [hch, readMessageHeader_spec e.cid c ch e (e.data ++ rest) hrc hev hh hcount hno']
+  rw [hch, readMessageHeader_spec a e.cid c ch e (e.data ++ rest) hrc hev hh hcount hno']
   simp only [Res.bind_ok, hrd]
   have hdelta : e.tsField < 4294967296 := hev.2.2.1
   rcases hcase with ⟨hc, hctl, rfl, rfl⟩ | ⟨hc, rfl, rfl⟩
   · -- the chunk completes its message
     rw [if_pos (by simpa [hdrOfCs, csAfter] using hc)]
     have harr := onMessageArrived_spec st.inChunk
-      { hdr := hdrOfCs e.cid (csAfter c e), payload := (csAfter c e).got ++ e.data } hctl
+      { hdr := hdrOfCs e.cid (csAfter a c e), payload := (csAfter a c e).got ++ e.data } hctl
     simp only [Res.bind_ok, harr, Res.pure_eq]
     refine ⟨_, _, rfl, ?_, rfl⟩
-    have hr' : RelCs e.cid (csDone c e)
-        { cid := ch.cid, hdr := hdrOfCs e.cid (csAfter c e), msg := none, count := ch.count + 1,
+    have hr' : RelCs e.cid (csDone a c e)
+        { cid := ch.cid, hdr := hdrOfCs e.cid (csAfter a c e), msg := none, count := ch.count + 1,
           extTs := decide (16777215 ≤ e.tsField) } :=
       ⟨hrc.cid, rfl, rfl, rfl, by intro h; simp [csDone] at h, by intro h; simp [csDone] at h, hdelta⟩
-    have := rel_set hrel e.cid (csDone c e) _
-      (if e.ty = 1 then ofBE ((csAfter c e).got ++ e.data) else s.chunkSize) hr' (by simp)
+    have := rel_set hrel e.cid (csDone a c e) _
+      (if e.ty = 1 then ofBE ((csAfter a c e).got ++ e.data) else s.chunkSize) hr' (by simp)
     simpa [hdrOfCs, csAfter, hrel.chunk] using this
   · -- the message stays open
     rw [if_neg (by simpa [hdrOfCs, csAfter] using hc)]
     simp only [Res.bind_ok, Res.pure_eq]
     refine ⟨_, _, rfl, ?_, rfl⟩
-    have hlt : ((csAfter c e).got ++ e.data).length < e.len := by
+    have hlt : ((csAfter a c e).got ++ e.data).length < e.len := by
       simp only [List.length_append] at hc ⊢
       omega
-    have habs : 16777215 ≤ e.tsField → newTs c e = e.tsField := by
+    have habs : 16777215 ≤ e.tsField → newTs a c e = e.tsField := by
       intro hx
       unfold HeaderOK at hh
       cases hb : c.busy with
@@ -174,14 +174,20 @@ theorem readChunk_spec (s s' : Sender) (st : Reader) (e : ChunkEv) (out : Option
         have hfm : e.fmt = 0 ∨ e.fmt = 1 ∨ e.fmt = 2 ∨ e.fmt = 3 := by have := hev.2.1; omega
         rcases hfm with hf | hf | hf | hf
         · simp [newTs, hb, hf]
-        · exact absurd ⟨hx, Or.inl hf⟩ hno'
-        · exact absurd ⟨hx, Or.inr (Or.inl hf)⟩ hno'
-        · exact absurd ⟨hx, Or.inr (Or.inr ⟨hf, hb⟩)⟩ hno'
-    have hr' : RelCs e.cid (csOpen c e)
-        { cid := ch.cid, hdr := hdrOfCs e.cid (csAfter c e),
-          msg := some { hdr := hdrOfCs e.cid (csAfter c e), payload := (csAfter c e).got ++ e.data },
+        · rcases hno' with rfl | hn
+          · simp [newTs, hb, hf, hx]
+          · exact absurd ⟨hx, Or.inl hf⟩ hn
+        · rcases hno' with rfl | hn
+          · simp [newTs, hb, hf, hx]
+          · exact absurd ⟨hx, Or.inr (Or.inl hf)⟩ hn
+        · rcases hno' with rfl | hn
+          · simp [newTs, hb, hf, hx]
+          · exact absurd ⟨hx, Or.inr (Or.inr ⟨hf, hb⟩)⟩ hn
+    have hr' : RelCs e.cid (csOpen a c e)
+        { cid := ch.cid, hdr := hdrOfCs e.cid (csAfter a c e),
+          msg := some { hdr := hdrOfCs e.cid (csAfter a c e), payload := (csAfter a c e).got ++ e.data },
           count := ch.count + 1, extTs := decide (16777215 ≤ e.tsField) } :=
       ⟨hrc.cid, rfl, rfl, rfl, fun _ => hlt, fun _ hx => habs hx, hdelta⟩
-    have := rel_set hrel e.cid (csOpen c e) _ s.chunkSize hr' (by simp)
+    have := rel_set hrel e.cid (csOpen a c e) _ s.chunkSize hr' (by simp)
     simpa [hrel.chunk] using this
 end Oryx.Rtmp
